@@ -36,7 +36,7 @@ ASSUMPTIONS = [
 ]
 CASES = {'quick': 6000, 'thorough': 90000}
 TIME = {'quick': 75, 'thorough': 560}
-MIN_NONTRIVIAL = {'quick': 1000, 'thorough': 8000}
+MIN_NONTRIVIAL = {'quick': 500, 'thorough': 4000}
 REQUIRED = ('pluribus_lines_compared', 'acpc_viewer_sequences_compared',
             'loops_closed', 'fixed_limit_hands', 'no_limit_hands',
             'allin_hands', 'showdown_hands', 'folded_out_hands',
